@@ -403,10 +403,15 @@ def get_depth(
         if parents is None:
             # Fall back to loading the object
             cmt = store[e]
-            if isinstance(cmt, Tag):
+            while isinstance(cmt, Tag):
                 _cls, sha = cmt.object
                 cmt = store[sha]
-            parents = get_parents(cmt)
+            try:
+                parents = get_parents(cmt)
+            except AttributeError:
+                # A ref may (through a tag) name a tree or a blob, which
+                # has no parents
+                parents = []
 
         queue.extend((parent, depth + 1) for parent in parents if parent in store)
     return current_depth
